@@ -290,9 +290,14 @@ def n9_align_lock_forms(fn, ent):
     return n
 
 
+def _hash_of(fn):
+    from . import alpha
+    return alpha.normal_hash(fn, alpha.function_locals(fn))
+
+
 def entry_for(fn):
     return {"cmp": compares_of(fn), "logs": log_texts(fn), "ifs": if_shapes(fn), "aug": aug_forms(fn), "tests": if_tests(fn),
-            "nested": nested_pairs(fn), "conts": continue_tests(fn), "locks": lock_forms(fn)}
+            "nested": nested_pairs(fn), "conts": continue_tests(fn), "locks": lock_forms(fn), "hash": _hash_of(fn)}
 
 
 def n5_align_augassign(fn, ent):
@@ -597,26 +602,30 @@ def _inline_temp(fn, name):
     return n
 
 
-def n3_inline_return_temps(fn, ent, ref_locals, ref_hash=None):
+def n3_inline_return_temps(fn, ent, aent):
     """inline as many `t = e; return t` temporaries as the function has locals more than the catalogued one; when a
-    choice exists, the one that makes the function equal (up to renaming) to the catalogued one, else the ones whose
-    names the catalogued function does not have, in order of appearance."""
+    choice exists, the one that makes the function - after the rest of the normalisation - equal to the catalogued one,
+    else the ones whose names the catalogued function does not have, in order of appearance."""
     import copy
     import itertools
     from . import alpha
     cand = _return_temp_candidates(fn)
     if not cand:
         return 0
+    ref_locals = list((aent or {}).get("names", ()))
     need = len(alpha.function_locals(fn)) - len(ref_locals)
     if need <= 0:
         return 0
     names = [nm for nm in alpha.function_locals(fn) if nm in cand]
     choice = None
+    ref_hash = ent.get("hash")
     if ref_hash is not None and len(names) <= 6:
         for sub in itertools.combinations(names, min(need, len(names))):
             c = copy.deepcopy(fn)
             for nm in sub:
                 _inline_temp(c, nm)
+            alpha.canonicalise_function(c, aent)
+            _post(c, ent)
             if alpha.normal_hash(c, alpha.function_locals(c)) == ref_hash:
                 choice = list(sub)
                 break
@@ -676,28 +685,45 @@ def n4_align_else(fn, ent):
     return n
 
 
-def canonicalise(tree, modname, stage="post"):
-    """stage "pre" (before alpha-normalisation): N2, N3; stage "post" (canonical local names in place): N1, N4."""
+def _post(fn, ent):
+    ks = {"N9": n9_align_lock_forms(fn, ent), "N5": n5_align_augassign(fn, ent), "N1": n1_orient_compares(fn, ent)}
+    ks["N6"] = n6_align_nested(fn, ent)
+    ks["N7"] = n7_align_continue(fn, ent)
+    ks["N4"] = n4_align_else(fn, ent)
+    return ks
+
+
+def normalise_function(q, fn, ent, aent):
+    """the whole per-function pipeline: spellings of locals (alpha), N2, N3, spellings again, N9 N5 N1 N6 N7 N4."""
+    from . import alpha
+    done = {}
+    m = alpha.canonicalise_function(fn, aent)
+    if m:
+        done["alpha"] = m
+    ks = {"N2": n2_strip_logging(fn, ent)}
+    ks["N3"] = n3_inline_return_temps(fn, ent, aent)
+    m = alpha.canonicalise_function(fn, aent)
+    if m:
+        done.setdefault("alpha", {}).update(m)
+    ks.update(_post(fn, ent))
+    done.update(dict((k, v) for k, v in ks.items() if v))
+    return done
+
+
+def normalise_module(tree, modname):
     from . import alpha
     tab = table()
-    done = []
-    if not tab:
-        return done
     atab = alpha.table()
+    out = []
+    if not tab:
+        return out
     for q, fn in alpha.functions_of(tree, modname):
         ent = tab.get(q)
         if not isinstance(ent, dict):
             continue
-        if stage == "pre":
-            aent = atab.get(q) or {}
-            ks = {"N2": n2_strip_logging(fn, ent), "N3": n3_inline_return_temps(fn, ent, list(aent.get("names", ())), aent.get("hash"))}
-        else:
-            ks = {"N9": n9_align_lock_forms(fn, ent), "N5": n5_align_augassign(fn, ent), "N1": n1_orient_compares(fn, ent)}
-            ks["N6"] = n6_align_nested(fn, ent)
-            ks["N7"] = n7_align_continue(fn, ent)
-            ks["N4"] = n4_align_else(fn, ent)
-        if any(ks.values()):
-            done.append((q, ks))
-    if done:
+        d = normalise_function(q, fn, ent, atab.get(q))
+        if d:
+            out.append((q, d))
+    if out:
         ast.fix_missing_locations(tree)
-    return done
+    return out
